@@ -32,6 +32,11 @@ def t2_format(sx, S, prefix, rsv, oldlens, wipe):
     return ndefflow.formatflow(sx, w, wipe)
 
 
+def t2_format_big(sx, S, oldlen):
+    w = worlds.T2World(sx, S, "", [], oldlen, old_lt_80=True, symbolic_window=(0, 0))
+    return ndefflow.formatflow(sx, w, 1)
+
+
 def t1_write(sx, hr, size, prefix, rsv, oldlens, lens, long, concrete=False):
     oldlen = sx.pick("oldlen", oldlens)
     w = worlds.T1World(sx, tuple(hr), size, prefix, [tuple(r) for r in rsv], oldlen,
@@ -128,6 +133,13 @@ def partitions(tier):
                               fn="t3_write", params=dict(nbr=nbr, nbw=nbw, nmaxb=nmaxb, oldlens=[0, 17],
                                                          lens=[0, 1, 16, 17, "cap-1", "cap"],
                                                          emulated=emulated)))
+    # two sectors: a message (and a wiping format) that reaches beyond the
+    # first 1 KiB - pages are written in the sector they belong to
+    parts.append(dict(name="t2:2032:sector:write", fn="t2_write",
+                      params=dict(S=2032, prefix="", rsv=[], oldlens=[0], lens=[1003, 1100],
+                                  long=True, concrete=True)))
+    parts.append(dict(name="t2:2032:sector:format", fn="t2_format_big",
+                      params=dict(S=2032, oldlen=1100)))
     # control TLVs whose size byte is 00h (256 reserved bytes / 256 lock bits)
     parts.append(dict(name="t1:dyn1024:L256+M256:write", fn="t1_write",
                       params=dict(hr=(0x12, 0x00), size=1024, prefix="LM", rsv=[(128, 32), (512, 256)],
